@@ -221,10 +221,86 @@ func c15Scenario(x *mc.X) *mc.Outcome {
 	return out
 }
 
+// c15ParamGrammar: every sequence of ≤3 parameters over {x, l, m[]} × {"", "v1", "v2"} sent as a GET query, as a
+// POST form body, and split between a POST form body and the query (net/http merges them).
+func c15ParamGrammar(x *mc.X) *mc.Outcome {
+	zh.Reset()
+	zh.Install(x, zh.PoolLIFO, zh.OrderRev)
+	keys := []string{"x", "l", "m[]"}
+	vals := []string{"", "v1", "v2"}
+	seq := func(label string, max int) []string {
+		var out []string
+		n := x.Choose(max+1, label+".len")
+		for i := 0; i < n; i++ {
+			k := keys[x.Choose(len(keys), label+".key")]
+			v := vals[x.Choose(len(vals), label+".val")]
+			out = append(out, url.QueryEscape(k)+"="+url.QueryEscape(v))
+		}
+		return out
+	}
+	mode := x.Choose(3, "source") // 0 GET query, 1 POST form body, 2 POST form body + query
+	var bodyParams, queryParams []string
+	switch mode {
+	case 0:
+		queryParams = seq("query", 3)
+	case 1:
+		bodyParams = seq("body", 3)
+	default:
+		bodyParams = seq("body", 2)
+		queryParams = seq("query", 2)
+	}
+	if _, ok := c15Skels[false]; !ok {
+		c15Skels[false] = c15Skel(false)
+	}
+	a := &Alpha{Tier: "quick", Mode: 0}
+	root := (&caseBuilder{x: mc.NewReplayX(nil), a: a, focus: map[string]bool{}, elems: 2, c: &Case{Alpha: a, Absent: map[string]bool{}, Touched: map[string]bool{}}}).buildNode(c15Skels[false])
+	mkReq := func() *http.Request {
+		method := "GET"
+		if mode > 0 {
+			method = "POST"
+		}
+		r := httptest.NewRequest(method, "/", strings.NewReader(strings.Join(bodyParams, "&")))
+		r.URL.RawQuery = strings.Join(queryParams, "&")
+		if mode > 0 {
+			r.Header.Set("Content-Type", "application/x-www-form-urlencoded")
+		}
+		return r
+	}
+	rec := &Recorder{Light: true}
+	schema := BuildZog(root, rec)
+	dest := reflect.New(root.GoType())
+	fillSentinel(dest.Elem(), root)
+	var orders [][]int
+	installOrderRecorder(x, zh.OrderRev, &orders)
+	real := RunParse(schema, zhttp.Request(mkReq()), dest)
+	zh.Reset()
+	var src *specSrc
+	if mode == 0 {
+		v, _ := url.ParseQuery(strings.Join(queryParams, "&"))
+		src = &specSrc{flat: true, tag: "query", get: flatGet(v)}
+	} else {
+		clone := mkReq()
+		clone.ParseForm()
+		src = &specSrc{flat: true, tag: "form", get: flatGet(clone.Form)}
+	}
+	st := &specState{orders: orders}
+	md := reflect.New(root.GoType())
+	fillSentinel(md.Elem(), root)
+	st.specParse(root, src, md.Elem(), "")
+	desc := fmt.Sprintf("source=%d body=%q query=%q", mode, strings.Join(bodyParams, "&"), strings.Join(queryParams, "&"))
+	out := &mc.Outcome{Traces: 1, Nontrivial: len(bodyParams)+len(queryParams) > 0, Sig: fmt.Sprintf("grammar|%d|%v|%s", mode, st.sorted(), canonNoTypes(md.Elem()))}
+	out.Sample = map[string]any{"request": desc, "issues": real.IssueStrings(), "dest": canonNoTypes(dest.Elem())}
+	if real.Panic != "" || !eqStrings(st.sorted(), real.IssueStrings()) || canonValue(md.Elem()) != canonValue(dest.Elem()) {
+		x.Note("request: %s (source 0 = GET query, 1 = POST form body, 2 = POST form body + query)", desc)
+		out.Viol = append(out.Viol, &mc.Violation{Key: fmt.Sprintf("C15:param-rule:%d", mode), What: "parameters are not presented as documented (repeated or []-suffixed → list, single → string, missing → absent; form = body plus query as net/http defines it)", Expected: fmt.Sprintf("%v %s", st.sorted(), canonNoTypes(md.Elem())), Observed: fmt.Sprintf("%s %v %s", real.Panic, real.IssueStrings(), canonNoTypes(dest.Elem()))})
+	}
+	return out
+}
+
 func init() {
 	Register(&Prop{
 		ID:    "C15",
-		Rule:  "full product: one execution = one real http.Request: method {GET, HEAD, POST, PUT, PATCH, DELETE, OPTIONS} × Content-Type {absent, empty, json, json with charset (two spellings), form, form with charset, multipart, text/plain, unknown; + 3 spellings outside the statement run for panic-freedom only} × body {JSON object, {}, truncated, array, null, number, string, empty, form, malformed escape, semicolon form, single-valued list} × query {none, single, repeated, m[] once, m[] twice, malformed} × {x optional, x required} × {Struct schema, Ptr(Struct) schema} × {body with known length, body of unknown length}, each source carrying its own sentinel keys and values; every case is non-trivial; distinct = distinct (expected source, media type, decode issue, issues)",
+		Rule:  "full product: one execution = one real http.Request: method {GET, HEAD, POST, PUT, PATCH, DELETE, OPTIONS} × Content-Type {absent, empty, json, json with charset (two spellings), form, form with charset, multipart, text/plain, unknown; + 3 spellings outside the statement run for panic-freedom only} × body {JSON object, {}, truncated, array, null, number, string, empty, form, malformed escape, semicolon form, single-valued list} × query {none, single, repeated, m[] once, m[] twice, malformed} × {x optional, x required} × {Struct schema, Ptr(Struct) schema} × {body with known length, body of unknown length}, each source carrying its own sentinel keys and values; plus the parameter grammar: every sequence of ≤3 parameters over keys {x, l, m[]} × values {empty, v1, v2} as GET query / POST form body / split between body and query; every case is non-trivial; distinct = distinct (expected source, media type, decode issue, issues)",
 		Floor: 30,
 		Bound: func(tier string) string { return "full product (both tiers), identity and reversed field visit orders" },
 		Assumptions: []string{
@@ -233,7 +309,7 @@ func init() {
 			"JSON {} keys: known finding D24 does not apply (no json tags differ from keys here)",
 		},
 		Items: func(tier string) []Item {
-			return []Item{{Name: "requests", MaxDevs: -1, Run: c15Scenario}}
+			return []Item{{Name: "requests", MaxDevs: -1, Run: c15Scenario}, {Name: "parameter-grammar", MaxDevs: -1, Run: c15ParamGrammar}}
 		},
 	})
 }
